@@ -526,13 +526,28 @@ func runC02(r *kit.Run) {
 					viol("count", fmt.Sprintf("Count()=%d, specification %d", got, len(want)))
 				}
 			case "reduce":
-				sum := 0
-				for _, x := range want {
-					sum += x
+				// fold with a reducer that skips one element (returning a
+				// value that must be ignored)
+				skipAt := -1
+				if len(want) > 0 && rng.IntN(2) == 0 {
+					skipAt = rng.IntN(len(want))
 				}
-				got, err := it.Reduce(func(x, acc int) (int, error) { return acc + x, nil }).Run(ctx)
+				sum := 0
+				for k, x := range want {
+					if k != skipAt {
+						sum = sum*2 + x
+					}
+				}
+				k := -1
+				got, err := it.Reduce(func(x, acc int) (int, error) {
+					k++
+					if k == skipAt {
+						return -12345, fun.ErrIteratorSkip
+					}
+					return acc*2 + x, nil
+				}).Run(ctx)
 				if got != sum || err != nil {
-					viol("fold", fmt.Sprintf("Reduce(sum)=%d err=%v, specification %d", got, err, sum))
+					viol("fold", fmt.Sprintf("Reduce=%d err=%v, specification %d (skip@%d)", got, err, sum, skipAt))
 				}
 			case "itertool-reduce":
 				// fold with a user function that skips one element and may stop
